@@ -53,6 +53,20 @@ func limitsPrograms(r *rand.Rand, L int) []*Program {
 		add(fmt.Sprintf("mapkey %d", total), Def("r", Map([]string{string(str(total).SV)}, []*Node{Int(1)})))
 		add(fmt.Sprintf("selector %d", total), Def("m", Map(nil, nil)), Def("r", Sel(Id("m"), string(str(total).SV))))
 	}
+	// format(): the result (not only its parts) must respect the maximum; padding and precision included
+	for _, f := range []struct{ fmtstr string; args []*Node }{
+		{"%s%s", []*Node{str(L - 3), str(3)}}, {"%s%s", []*Node{str(L - 3), str(4)}}, {"%s-%s", []*Node{str(L - 4), str(4)}},
+		{"abcd%-6d", []*Node{Int(1)}}, {"abcd%-4d", []*Node{Int(1)}}, {"abcd%-5d", []*Node{Int(1)}}, {"abcd%6d", []*Node{Int(1)}}, {"abcd%4d", []*Node{Int(1)}},
+		{"ab%-6s", []*Node{Str("c")}}, {"ab%-7s", []*Node{Str("c")}}, {"ab%6s", []*Node{Str("c")}}, {"ab%7s", []*Node{Str("c")}},
+		{"%-9v", []*Node{Int(5)}}, {"%9v", []*Node{Int(5)}}, {"%-8v", []*Node{Bool(true)}}, {"%-9v", []*Node{Bool(true)}},
+		{"%09d", []*Node{Int(7)}}, {"%08d", []*Node{Int(7)}}, {"%.9f", []*Node{Float16(24)}}, {"%.5f", []*Node{Float16(24)}}, {"%10.3f", []*Node{Float16(24)}},
+		{"%x", []*Node{str(4)}}, {"%x", []*Node{str(5)}}, {"%q", []*Node{str(6)}}, {"%q", []*Node{str(7)}}, {"%v", []*Node{Arr(Int(1), Int(2), Int(3))}},
+		{"%v", []*Node{Arr(Int(1), Int(2))}}, {"%*d", []*Node{Int(9), Int(1)}}, {"%*d", []*Node{Int(8), Int(1)}}, {"%-*d", []*Node{Int(9), Int(1)}},
+		{"%.*f", []*Node{Int(8), Float16(16)}}, {"%5t|%-5t", []*Node{Bool(true), Bool(false)}}, {"%c%c%c%c%c%c%c%c%c", []*Node{Char('a'), Char('b'), Char('c'), Char('d'), Char('e'), Char('f'), Char('g'), Char('h'), Char('i')}},
+		{"%8s|", []*Node{Str("x")}}, {"%-8s|", []*Node{Str("x")}}, {"%+d%+d%+d%+d%+d", []*Node{Int(1), Int(2), Int(3), Int(4), Int(5)}},
+	} {
+		add("format "+f.fmtstr, Def("r", Call(Id("format"), append([]*Node{Str(f.fmtstr)}, f.args...)...)))
+	}
 	// growth in loops
 	add("doubling", Def("s", Str("ab")), For(Def("i", Int(0)), Bin("<", Id("i"), Int(6)), IncDec("i", nil, "++"), Blk(Set("s", nil, "+=", Id("s")))))
 	add("bytes-doubling", Def("s", Call(Id("bytes"), Str("ab"))), For(Def("i", Int(0)), Bin("<", Id("i"), Int(6)), IncDec("i", nil, "++"),
